@@ -31,6 +31,14 @@ CLAIMED = {
    text="Bounded model checking of the index bookkeeping: SearchIndex::{prepare,commit,add,update,remove,remove_vault} and DocumentCount::{add,remove} run from the MIR of the current tree on every history of <= 2 (quick) / 3 (thorough) operations over two folders x two secret ids from the empty index, with symbolic kind / tag / favourite attributes and an optional archive folder. On every feasible path documents() holds exactly one entry per live (folder,id), the per-folder, per-kind, per-tag and favourites counters equal a recount of documents(), and the keys given to the text index equal the document keys; counterexamples are replayed on a real SearchIndex.",
    note="Bookkeeping kernel only. Trusted: rustc MIR, mirsym models (BTreeMap/HashMap/HashSet as lists, probly-search as a key set), z3. Outside: tokenisation and ranking, queries, the merge replay in folder_sync.rs, the LocalAccount plumbing that drives the index, equality with an index rebuilt from decrypted folders.",
    design="DESIGN.md section 3, C20"),
+ "C07": dict(
+   text="Bounded model checking of the refusal paths of the file-system event log: FileSystemEventLog::{patch_checked, rewind, replace_all_events} with the snapshot/rollback code run from the MIR of the current tree over a model of the file API, from a log of k <= 2 (quick) / 3 records with commits from a pool of three (byte-identical events included), against the head proof of an arbitrary other log (symbolic leaves: matching, stale, diverged) and symbolic patches. z3 decides per path: the patch is appended iff the proof is the head of exactly this log; on every refusal (conflict, absent rewind target, wrong replace-all checkpoint, also on an empty log) the file bytes and the tree equal the pre-state, a restart reads the pre-state back and no stray file is left; counterexamples are replayed on a real FolderEventLog in a temp directory.",
+   note="File-system backend only. Trusted: rustc MIR, mirsym, the vfs model (atomic file operations, no I/O errors), the ideal-hash rs_merkle model (validated in C08), z3. Outside: the sqlite implementation, the server-side event_patch / rollback_rewind and the client rewind_local orchestration, folder contents derived from the log.",
+   design="DESIGN.md section 3, C07"),
+ "C13": dict(
+   text="Bounded model checking with the crash point as a variable: apply_records, rewind, clear and replace_all_events of FileSystemEventLog run from the MIR of the current tree over the vfs model; the process dies before the j-th mutating file operation of the call (every j) or an append is torn at a solver-chosen byte offset, then the restart path (fresh instance + load_tree) runs on what is left. Obligation: the restart succeeds and the log equals its state before or after the interrupted operation. Violations are confirmed by writing the predicted disk image and re-opening it with the real code.",
+   note="File-system event log only; each modelled file operation is atomic and torn writes are modelled for appends. Known findings (torn tail is not recovered; replace_all_events is not crash-atomic) are listed in known_findings.txt. Outside: sqlite transactions, vault-file rewrites, multi-file operations of LocalAccount, the OS's real write atomicity, 'the folder served equals the replay of its log' after restart.",
+   design="DESIGN.md section 3, C13"),
  "C08": dict(
    text="Bounded model checking of the real comparison code: CommitTree::{append,commit,head,proof,compare} and CommitProof::verify_leaves are executed from the MIR of the current tree for every pair of sequence lengths up to the bound (4x4 quick, 7x7 thorough) with symbolic leaf identifiers, so one solver query covers every equality pattern between the two logs (repeats, equal leaves over different prefixes). The oracle is the prefix relation on the raw sequences; z3 decides each implication per path, counterexamples are replayed on the real CommitTree. The tests use one pair of trees with unique leaves where one extends the other.",
    note="Trusted: rustc MIR, the mirsym interpreter, the ideal-hash port of rs_merkle 1.5 (compared with the real crate on every run: roots, leaves, proofs, verification matrix for sizes <= 8, batched commits, rollbacks), collision-freeness of SHA-256, z3. Bounds: sequence lengths. Outside: proof (de)serialisation (C14/C15), the network around the ancestor scan.",
